@@ -700,6 +700,14 @@ def World.step (w : World) (line : String) : World :=
   | "ackbatch" => w.onAckBatch toks
   | "heads" => w.onHeads toks
   | "loadend" => w.onLoadEnd toks
+  | "liveloaded" =>
+    -- `Load(n)` on the store as it is ("load more"): from here on the store is followed from the
+    -- implementation's own state (as after a limited load at opening); what matters is that it returned
+    let p := peerNum (toks.getD 1 "")
+    let w := { w with lastObs := w.lastObs.filter (·.1 != w.key p),
+                      partialStores := w.key p :: w.partialStores.filter (· != w.key p),
+                      resync := w.key p :: w.resync }
+    if toks.getD 2 "" != "ok" then w.fail "C15" "load" s!"peer {p}: Load({w.pending.getD 2 ""}) on the open store reports {toks.getD 2 ""}" else w
   | "loadq" => w.onLoadQ toks
   | "rputfail" =>
     let k := w.key (peerNum (toks.getD 1 ""))
